@@ -196,6 +196,45 @@ theorem oversize_record_store_fails_counterexample :
       loadAll lines = ([some { updater := "a", fp := "fa", vuln := [⟨1, 10⟩] }], .ok) := by
   refine ⟨_, _, rfl, rfl, by decide⟩
 
+/-! ### Any number of `Store` calls to one writer ("as often as needed to flush") -/
+
+/-- For every history mixing recording calls and `Store` calls (all writing to
+    one file), if every record fits (`FitOps`) and no recording call is handed a
+    uuid that an already written line carries (`NoReuse`; uuid.New() collides
+    with probability 2⁻¹²²), loading everything written yields exactly the
+    flushed non-empty updates, in the order written; together with the non-empty
+    updates still in the map they are a permutation of all non-empty recorded
+    updates. -/
+theorem multi_flush_roundtrip_partial (ops : List Op) (hfit : FitOps ops)
+    (hnr : NoReuse World.init ops) :
+    ∃ L : List Update,
+      loadAll (Sm.run step World.init ops).out = (L.map (fun u => some u.loaded), .ok) ∧
+      (L ++ ((Sm.run step World.init ops).store.entries.filter nonEmpty).map Entry.update).Perm
+        ((returned World.init ops).filter fun u => !u.recs.isEmpty) :=
+  multi_flush_general ops hfit hnr
+
+/-- Why `NoReuse` is needed: the collision loop only looks at the map, which a
+    `Store` call empties; a uuid drawn again afterwards makes the new entry's
+    lines continue the old block and the loader merges two updates into one. -/
+theorem uuid_reuse_across_flush_merges_counterexample :
+    let ops : List Op := [.record .vuln "a" "fa" [⟨1, 10⟩] [0], .store [1],
+                          .record .vuln "b" "fb" [⟨2, 10⟩] [0], .store [1]]
+    loadAll (Sm.run step World.init ops).out =
+      ([some { updater := "a", fp := "fa", vuln := [⟨1, 10⟩, ⟨2, 10⟩] }], .ok) := by
+  decide
+
+/-- `NoReuse` and `FitOps` are satisfiable by a history with two flushes. -/
+example :
+    let ops : List Op := [.record .vuln "a" "fa" [⟨1, 10⟩] [0], .store [1],
+                          .record .enrich "b" "fb" [⟨2, 10⟩] [1], .store [2]]
+    NoReuse World.init ops ∧
+    loadAll (Sm.run step World.init ops).out =
+      ([some { updater := "a", fp := "fa", vuln := [⟨1, 10⟩] },
+        some { updater := "b", fp := "fb", enrich := [⟨2, 10⟩] }], .ok) := by
+  refine ⟨?_, by decide⟩
+  simp [NoReuse, step, Store.record, Store.store, pickRef, mkUuid, Store.hasRef, arrange, storeOut,
+    emitRecs, Rec.fits, maxLine, mkLine, World.init]
+
 /-! ### OfflineImport's loop (modelled; not tied to the code — it needs Postgres) -/
 
 /-- An entry whose fingerprint is among the known operations of its updater
